@@ -54,6 +54,19 @@ CHECKS = {
         note=TRUSTED + " Dead code (statements after return/raise/break/continue in the same block) is outside the grammar "
         "(pyanalyze deliberately analyses it as fall-through); nested functions/global/nonlocal are not generated yet.",
     ),
+    "C10": dict(
+        technique="TLA+ spec Determinism.tla (set-iteration sites on the way to output as schedule choices; the Checker as a cache "
+        "machine) checked by TLC; TLC simulation draws schedules (hash seed, sequence of programs sharing one Checker), each run "
+        "in a fresh subprocess with that PYTHONHASHSEED, and the recorded renderings are validated by TLC "
+        "(DeterminismTrace.tla): a program must always render exactly as the first time it was seen",
+        text="Model checking of the schedule model (all seeds x all sequences of <=3 (quick) / <=4 (thorough) programs) plus "
+        "trace validation of real executions: ~70 (quick) / ~420 (thorough) fresh processes over a pool of 21 programs "
+        "targeting the modelled sites (unexpected keywords, or-chains, protocols, literal unions, dict/set displays, "
+        "TypedDict, overloads, generics, narrowing loops, try/finally scopes), each also checked twice in one process. "
+        "Four ordering defects were repaired; set displays are a known finding.",
+        design="2/C10",
+        note=TRUSTED + " Renderings = code, line, column and message text of every diagnostic with module names and addresses normalised.",
+    ),
     "C11": dict(
         technique="TLA+ state machine Suppression.tla (show_error decision chain, unused/bare ignore passes) vs declarative "
         "RefD, exhaustive TLC; TLC-enumerated files realised as source, checked by the real visitor with the ShowError hook, "
